@@ -88,6 +88,8 @@ class Fn:
             if t and (t, e[2]) in self.fields:
                 return self.fields[(t, e[2])][1]
             return None
+        if k == "slice":
+            return self.ty(e[1], env)
         if k == "index":
             t = self.ty(e[1], env)
             if t:
@@ -102,7 +104,7 @@ class Fn:
                 return self.ty(e[1], env)
             if e[2] in ("is_some", "is_none", "is_some_and", "is_empty", "contains_key", "is_absolute"):
                 return "bool"
-            if e[2] in ("copied", "cloned", "clone", "collect", "to_string_lossy", "chain", "iter", "ok"):
+            if e[2] in ("copied", "cloned", "clone", "collect", "to_string_lossy", "chain", "iter", "ok", "to_string", "to_owned"):
                 return self.ty(e[1], env)
             if ("." + e[2]) in self.calls:
                 rt = self.calls["." + e[2]][1]
@@ -279,6 +281,16 @@ class Fn:
             raise Unsupported("field .%s of type %s" % (e[2], t))
         if k == "index":
             return "(nthZ %s %s)" % (self.ex(e[1], env), self.ex(e[2], env))
+        if k == "slice":
+            base = self.ex(e[1], env)
+            if e[2] is not None:
+                base = "(skipn (Z.to_nat %s) %s)" % (self.ex(e[2], env), base)
+                if e[3] is not None:
+                    raise Unsupported("slice with both bounds")
+                return base
+            if e[3] is not None:
+                return "(firstn (Z.to_nat %s) %s)" % (self.ex(e[3], env), base)
+            return base
         if k == "unary":
             if e[1] == "!":
                 return "(negb %s)" % self.ex(e[2], env)
@@ -342,7 +354,7 @@ class Fn:
             raise Unsupported("call of %s" % (f,))
         if k == "mcall":
             recv, name, args = e[1], e[2], e[3]
-            if name in ("copied", "cloned", "clone", "to_owned", "iter", "as_ref", "collect", "to_path_buf", "to_string_lossy", "ok", "as_os_str") and not args:
+            if name in ("copied", "cloned", "clone", "to_owned", "iter", "as_ref", "collect", "to_path_buf", "to_string_lossy", "ok", "as_os_str", "to_string") and not args:
                 return self.ex(recv, env)
             if name == "map_err" and len(args) == 1:
                 return self.ex(recv, env)
@@ -1110,6 +1122,21 @@ def functions():
         return translate_fn(src, "read_magic", None, spec, "g_read_magic", "(r : list Z)", "option bool")
     out.append(("read_magic", "src/bin/copia/wire.rs read_magic", None, t_read_magic))
 
+    tgt_calls = {".find": ("findZ {0} {1}", "Option<usize>"), ".contains": ("containsZ {0} {1}", "bool"), "PathBuf::from": ("{0}", "Path")}
+
+    def t_split_target():
+        src = read("src/bin/copia/hub.rs")
+        spec = dict(signature=[("t", "str")], try_none="None", calls=tgt_calls, param_types={"t": "Vec<char>"})
+        return translate_fn(src, "split_target", None, spec, "g_split_target", "(t : list Z)", "option (list Z * list Z)")
+    out.append(("split_target", "src/bin/copia/hub.rs split_target", None, t_split_target))
+
+    def t_parse_location():
+        src = read("src/bin/copia/main.rs")
+        spec = dict(signature=[("s", "str")], calls=tgt_calls, param_types={"s": "Vec<char>"},
+                    paths={"Self::Local": "LLocal"}, structs={"Self::Remote": ("LRemote", ["host", "path"], ["String", "String"])})
+        return translate_fn(src, "parse", "FileLocation", spec, "g_parse_location", "(s : list Z)", "location")
+    out.append(("parse_location", "src/bin/copia/main.rs FileLocation::parse", None, t_parse_location))
+
     def t_cas():
         src = read("src/bin/copia/wire.rs")
         check_enum(src, "Cas", ["Commit", "Conflict"])
@@ -1223,6 +1250,7 @@ GROUPS = {
     # group -> (imports, needs the digest section, [function keys], properties whose models rest on these functions)
     "Reconcile": ("Model.Reconcile", True, ["same", "reconcile_path", "reconcile"]),
     "Cas": ("", True, ["cas_decide"]),
+    "Targets": ("Model.Targets", False, ["split_target", "parse_location"]),
     "WireMagic": ("Model.Wire", False, ["read_magic"]),
     "BisyncApply": ("", "bisync", ["apply"]),
     "BisyncSys": ("", "bisyncsys", ["copy_atomic"]),
